@@ -21,16 +21,17 @@
 (* observation bin -- every native bin that overlaps some observation bin  *)
 (* is retained, with the same mid-point width as on the full grid (its     *)
 (* neighbours are retained too, unless it is an end of the native grid).   *)
-(* Under the contract the mechanism equals the definition (LGCoverLemma).  *)
-(* The margin rule of the code meets the contract for every layout whose   *)
-(* bins lie 1.5 native spacings inside the clip window (LGInsideWindow:    *)
-(* contiguous constant-resolution layouts with widths growing any factor   *)
-(* end to end, gaps, broad photometric bins separated from narrow ones);   *)
-(* margins taken from the first / last / narrowest bin or half the widest  *)
-(* do not (expected counterexamples), and NO margin computed from the      *)
-(* centres alone covers a broad bin that reaches beyond the window         *)
-(* (overlapping broad bins: expected counterexample = design-level         *)
-(* finding, see the report).                                               *)
+(* Under the contract the mechanism equals the definition (CoverLemma of   *)
+(* MC_LikeGrid).  The margin rule of the code meets the contract for the   *)
+(* layout families of MC_LikeGrid (contiguous constant-resolution layouts  *)
+(* with widths growing up to 9x end to end, either direction, gaps, broad  *)
+(* photometric bins separated from narrow ones, two instruments) and, in   *)
+(* general, whenever every bin lies 1.5 native spacings inside the window  *)
+(* (LGInsideWindow); margins taken from the first / last / narrowest bin   *)
+(* or half the widest do not (expected counterexamples), and NO margin     *)
+(* computed from the centres alone covers a broad bin that reaches beyond  *)
+(* the window (overlapping broad bins: expected counterexample = design-   *)
+(* level finding, see the report).                                         *)
 (* Grid.tla (C13) is extended read-only.                                   *)
 (***************************************************************************)
 EXTENDS Grid
@@ -42,10 +43,11 @@ LGSpectrum(c0, c1, a) == [i \in 1..Len(c0) |-> c0[i] + a * c1[i]]
 \* ---------------------------------------------------------------- definition
 \* binned value of bin (c, w2) over grid g: overlap-weighted mean; a bin no native bin overlaps is left at 0
 LGBinned(g, f, c, w2) == LET r == GBinnedRaw(g, f, c, w2) IN IF r[2] = 0 THEN RZero ELSE Norm(r[1], r[2])
-\* chi2 / 2 of the spectrum f on grid g against the observation (oc, ow2, data, sig)
-LGHalfChi2(g, f, oc, ow2, data, sig) ==
-    RDiv(RSumSeq([j \in 1..Len(oc) |->
-            LET z == RDiv(RSub(Q(data[j]), LGBinned(g, f, oc[j], ow2[j])), Q(sig[j])) IN RMul(z, z)]), Q(2))
+\* the terms of chi2 of the spectrum f on grid g against the observation (oc, ow2, data, sig): one exact rational
+\* per bin, ((data_j - binned_j) / sigma_j)^2  (kept per bin: 32-bit rationals; chi2 / 2 = half their sum)
+LGBinnedSeq(g, f, oc, ow2) == [j \in 1..Len(oc) |-> LGBinned(g, f, oc[j], ow2[j])]
+LGChiTerms(g, f, oc, ow2, data, sig) ==
+    [j \in 1..Len(oc) |-> LET z == RDiv(RSub(Q(data[j]), LGBinned(g, f, oc[j], ow2[j])), Q(sig[j])) IN RMul(z, z)]
 
 \* ---------------------------------------------------------------- mechanism
 \* 2 * margin of the clip window, by rule ("max" is the code)
@@ -59,12 +61,12 @@ LGMargin2(oc, rule) ==
 LGClipIdx(nat, oc, rule) == LET m2 == LGMargin2(oc, rule) IN {i \in 1..Len(nat) : GInClipM(nat[i], oc, m2)}
 LGLo(nat, oc, rule) == LET I == LGClipIdx(nat, oc, rule) IN IF I = {} THEN 0 ELSE GSetMin(I)
 LGHi(nat, oc, rule) == LET I == LGClipIdx(nat, oc, rule) IN IF I = {} THEN 0 ELSE GSetMax(I)
-\* chi2 / 2 as the mechanism computes it; "degenerate" if fewer than two native points survive the clip
+\* the chi2 terms as the mechanism computes them; "degenerate" if fewer than two native points survive the clip
 LGMech(nat, f, oc, ow2, data, sig, rule) ==
     LET lo == LGLo(nat, oc, rule)
         hi == LGHi(nat, oc, rule)
-    IN  IF lo = 0 \/ hi <= lo THEN [k |-> "degenerate", h |-> RZero]
-        ELSE [k |-> "num", h |-> LGHalfChi2(SubSeq(nat, lo, hi), SubSeq(f, lo, hi), oc, ow2, data, sig)]
+    IN  IF lo = 0 \/ hi <= lo THEN [k |-> "degenerate", t |-> <<>>]
+        ELSE [k |-> "num", t |-> LGChiTerms(SubSeq(nat, lo, hi), SubSeq(f, lo, hi), oc, ow2, data, sig)]
 
 \* ---------------------------------------------------------------- the clipping contract
 \* native bin i of the full grid overlaps some observation bin
@@ -72,8 +74,8 @@ LGNeeded(nat, oc, ow2, i) == \E j \in 1..Len(oc) : GWt(nat, i, oc[j], ow2[j]) > 
 LGCovers(nat, oc, ow2, lo, hi) ==
     /\ lo > 0 /\ hi > lo
     /\ \A i \in 1..Len(nat) : LGNeeded(nat, oc, ow2, i) =>
-          /\ i >= lo /\ i <= hi                                   \* retained
-          /\ (i = lo => i = 1) /\ (i = hi => i = Len(nat))         \* and not an edge of the clip: same mid-point width
+          /\ i >= lo /\ i <= hi                                                   \* retained
+          /\ GHalfQi(SubSeq(nat, lo, hi), i - lo + 1) = GHalfQi(nat, i)           \* with the same mid-point width
 \* every observation bin overlaps the native grid at all (observations inside the model's range)
 LGObserved(nat, oc, ow2) == \A j \in 1..Len(oc) : GWtSum(nat, oc[j], ow2[j]) > 0
 
